@@ -31,6 +31,10 @@ func (x Expr) MustRemove(data any) any {
 	if len(sx) == 0 {
 		sx = Expr{Root(0)}
 	}
+	if f, ok := last.(*Filter); ok {
+		// $ in the filter refers to the root of the data.
+		return sx.modify(data, func(element any) (any, bool) { return f.removeWithRoot(element, data) }, false)
+	}
 	if r, ok := last.(remover); ok {
 		return sx.modify(data, r.remove, false)
 	}
@@ -51,6 +55,10 @@ func (x Expr) MustRemoveOne(data any) any {
 	sx := x[:len(x)-1]
 	if len(sx) == 0 {
 		sx = Expr{Root(0)}
+	}
+	if f, ok := last.(*Filter); ok {
+		// $ in the filter refers to the root of the data.
+		return sx.modify(data, func(element any) (any, bool) { return f.removeOneWithRoot(element, data) }, true)
 	}
 	if r, ok := last.(oneRemover); ok {
 		return sx.modify(data, r.removeOne, true)
